@@ -483,11 +483,78 @@ def required_cells(ctx):
     return req
 
 
+# ---------------------------------------------------------------------------------------------
+# quartic polynomials on four moderately large steps (0.08 ... 0.01): the raw second differences carry visible
+# h (one-sided), h^2 (central, complex) terms; the extrapolation stage removes them exactly if and only if it is set
+# up for the error powers of the method.  With the tiny default steps a wrong pairing is invisible.
+
+def quartic(n):
+    """f(x) = (a.x)^4 + (b.x)^3 (c.x) + 0.5 x'Qx, closed-form Hessian"""
+    a = np.array([1.0, -0.5, 0.75, 0.25][:n])
+    b = np.array([0.5, 1.0, -0.25, -0.75][:n])
+    c = np.array([-1.0, 0.5, 1.0, 0.25][:n])
+    Q = np.array([[(-1.0) ** (i + j) * (1.0 + 0.5 * abs(i - j)) for j in range(n)] for i in range(n)])
+
+    def f(x):
+        return np.dot(a, x) ** 4 + np.dot(b, x) ** 3 * np.dot(c, x) + 0.5 * np.dot(x, np.dot(Q, x))
+
+    def hess(x):
+        ax, bx, cx = float(np.dot(a, x)), float(np.dot(b, x)), float(np.dot(c, x))
+        return (12 * ax * ax * np.outer(a, a) + 6 * bx * cx * np.outer(b, b)
+                + 3 * bx * bx * (np.outer(b, c) + np.outer(c, b)) + Q)
+
+    def size(x):
+        ax, bx, cx = (float(np.dot(np.abs(v), np.abs(x))) for v in (a, b, c))
+        return ax ** 4 + bx ** 3 * cx + 0.5 * float(np.dot(np.abs(x), np.dot(np.abs(Q), np.abs(x)))) + 1.0
+    return f, hess, size
+
+
+def work_quartic(chunk):
+    import numdifftools as nd
+    from numdifftools.step_generators import MinStepGenerator
+    acc = fw.Acc()
+    for n, xk, method in chunk:
+        f, hess, size = quartic(n)
+        x = np.array([0.7, -1.3, 0.4, 1.1][:n]) if xk == 'mixed' else np.array([0.3, 0.4, 0.5, 0.6][:n])
+        H = hess(x)
+        # rounding of a second difference: eps |f| / h^2 with h >= 0.01, amplified by the extrapolation weights
+        allow = 1e-8 * size(x)
+        entries = [('Hessian', None)] + [('Hessdiag', o) for o in ((2,) if method == 'multicomplex' else (2, 4))]
+        for entry, order in entries:
+            fw.fresh_library_state()
+            kw = dict(method=method, step=MinStepGenerator(base_step=0.01, num_steps=4, step_ratio=2))
+            if order is not None:
+                kw['order'] = order
+            case = ('quartic', n, xk, method, entry, order)
+            jc = dict(kind='quartic', n=n, xkind=xk, method=method, entry=entry, order=order)
+            try:
+                with warnings.catch_warnings():
+                    warnings.simplefilter('ignore')
+                    with np.errstate(all='ignore'):
+                        val = np.asarray(getattr(nd, entry)(f, **kw)(x))
+            except Exception as e:      # noqa: BLE001
+                acc.case(case, nontrivial=True, cell='quartic/%s' % method, outcome='raised')
+                acc.violation('C04:%s:raised-%s:quartic' % (entry, type(e).__name__), jc, '%s: %s' % (type(e).__name__, e), n)
+                continue
+            want = H if entry == 'Hessian' else np.diag(H)
+            err = float(np.max(np.abs(val - want))) if val.shape == want.shape else float('inf')
+            acc.case(case, nontrivial=True, cell='quartic/%s' % method, outcome=err <= allow)
+            acc.maxi('quartic/worst error over allowance', err / allow)
+            if not err <= allow:
+                acc.violation('C04:%s:quartic-inexact:%s' % (entry, method), jc,
+                              '%s(quartic polynomial, method=%r%s, step=MinStepGenerator(base_step=0.01, num_steps=4, step_ratio=2))'
+                              '(%r): max error %.3g > %.3g (the four steps determine the h, h^2 terms of a quartic exactly); got %r, '
+                              'exact %r' % (entry, method, '' if order is None else ', order=%d' % order, x.tolist(), err, allow,
+                                            val.tolist(), want.tolist()), n)
+    return acc
+
+
 def run(ctx):
     its = items(ctx)
     # heavy items (large n) first so that the pool drains evenly
     its.sort(key=lambda it: -it[1])
     acc = ctx.pmap(work, its, chunk=1, tier=ctx.tier)
+    acc.merge(ctx.pmap(work_quartic, [(n, xk, m) for n in (1, 2, 3, 4) for xk in ('mixed', 'pos') for m in METHODS], chunk=2))
     for it in (its[0], its[len(its) // 3], its[len(its) // 2], its[-1]):
         spec, n, xk = it
         x = point(xk, n)
@@ -528,6 +595,10 @@ def run(ctx):
 # ---------------------------------------------------------------------------------------------
 
 def replay(case):
+    if case.get('kind') == 'quartic':
+        a = work_quartic([(case['n'], case['xkind'], case['method'])])
+        bad = [r['detail'] for k, (n, recs) in a.viol.items() for r in recs]
+        return not bad, '%r -> %s' % (case, bad or 'exact')
     spec = rh.tuplify(case['spec'])
     n, xk = int(case['n']), case['xkind']
     method, order = case['method'], case['order']
